@@ -7,38 +7,40 @@ from engine.rulekit import witness as W
 from rules import templates as T
 
 
-def choose(F, X, base, cap, pool=64):
-    """Sample indices: the first `base` derivations, then (greedy set cover over a pool of candidate derivations, rendering only)
-    those that reach emit sites not reached yet, up to `cap` samples. Which derivations are type-checked is decided by coverage,
-    not by luck of the hash."""
+def choose(F, X, base, cap):
+    """Sample indices and, for the directed ones, their target contexts: the first `base` derivations, then one derivation directed
+    at each emit site that is still unreached (its loops non-empty, its conditions taken as needed), up to `cap` samples. Which
+    derivations are type-checked is decided by coverage, not by luck of a hash."""
     indices = list(range(base))
+    targets = {}
     covered = set()
     for i in indices:
         covered |= skeleton.sample(F, X, i).covered
-    cands = {}
-    while len(indices) < cap:
-        best, gain = None, 0
-        for i in range(base, pool):
-            if i in indices:
-                continue
-            if i not in cands:
-                cands[i] = skeleton.sample(F, X, i).covered
-            g = len(cands[i] - covered)
-            if g > gain:
-                best, gain = i, g
-        if best is None:
-            break
-        indices.append(best)
-        covered |= cands[best]
-    return indices
+    sites = {}
+    for e in T.inline(X, T.ROOT):
+        if e.kind == "emit":
+            sites.setdefault((e.fn, e.ev.order), []).append(e)
+    nxt = 100
+    for key in sorted(sites, key=lambda k: (k[0], k[1])):
+        if key in covered or len(indices) >= cap:
+            continue
+        for e in sites[key]:
+            r = skeleton.sample(F, X, nxt, e.ctx)
+            if key in r.covered:
+                indices.append(nxt)
+                targets[nxt] = e.ctx
+                covered |= r.covered
+                nxt += 1
+                break
+    return indices, targets
 
 
 def run(F, tier):
     X = T.extractor(F)
     n = 5 if tier != "thorough" else 24
-    indices = choose(F, X, n, 10 if tier != "thorough" else 32)
+    indices, targets = choose(F, X, n, 14 if tier != "thorough" else 40)
     n = len(indices)
-    segs, maps, renders, asserts = skeleton.assemble(F, X, indices)
+    segs, maps, renders, asserts = skeleton.assemble(F, X, indices, targets)
     ok, diags = W.check(F, segs, "e4-" + tier)
     allsites = {(e.fn, e.ev.order): e for e in T.inline(X, T.ROOT) if e.kind == "emit"
                 and not (len(e.parts) == 1 and e.parts[0][0] == "hole" and e.parts[0][1][0] == "const")}
